@@ -766,6 +766,162 @@ theorem utf_safe_source_sizes (s : List UInt8) (codes : List Int) (c : Int) (w :
 
 example : datawOffset 5 = 8 ∧ datawResizeArg 5 = 34 ∧ fromCodesBudget 3 = 4 := by decide
 
+/-! ## case mapping of valid text is valid text with as many characters -/
+
+theorem raw_enc {v : Nat} {bs rest : List UInt8} (h : Enc v bs) :
+    enumRaw (bs ++ rest) = (enumRaw rest).map ((v, bs) :: ·) := by
+  cases h with
+  | one v h0 h =>
+    have t1 := ofNat_toNat_lt (x := v) (by omega)
+    have z1 := ofNat_ne_zero (x := v) (by omega) h0
+    conv => lhs; rw [List.cons_append, List.nil_append, enumRaw.eq_def]
+    simp only [z1, if_false, t1, is1_true h, if_true]
+  | two a r ha hr hv =>
+    have t1 := ofNat_toNat_lt (x := 192 + a) (by omega)
+    have t2 := ofNat_toNat_lt (x := 128 + r) (by omega)
+    have z1 := ofNat_ne_zero (x := 192 + a) (by omega) (by omega)
+    have z2 := ofNat_ne_zero (x := 128 + r) (by omega) (by omega)
+    conv => lhs; rw [List.cons_append, List.cons_append, List.nil_append, enumRaw.eq_def]
+    simp only [z1, z2, if_false, t1, t2, is1_false (x := 192 + a) (by omega) (by omega),
+      is2_true (x := 192 + a) (by omega) (by omega), if_true, code2_eq a r ha hr, Bool.false_eq_true]
+  | three a b r ha hb hr hv =>
+    have t1 := ofNat_toNat_lt (x := 224 + a) (by omega)
+    have t2 := ofNat_toNat_lt (x := 128 + b) (by omega)
+    have t3 := ofNat_toNat_lt (x := 128 + r) (by omega)
+    have z1 := ofNat_ne_zero (x := 224 + a) (by omega) (by omega)
+    have z2 := ofNat_ne_zero (x := 128 + b) (by omega) (by omega)
+    have z3 := ofNat_ne_zero (x := 128 + r) (by omega) (by omega)
+    conv => lhs; rw [List.cons_append, List.cons_append, List.cons_append, List.nil_append, enumRaw.eq_def]
+    simp only [z1, z2, z3, if_false, t1, t2, t3, is1_false (x := 224 + a) (by omega) (by omega),
+      is2_false (x := 224 + a) (by omega) (by omega), is3_true (x := 224 + a) (by omega) (by omega), if_true,
+      code3_eq a b r ha hb hr, Bool.false_eq_true]
+  | four a b c r ha hb hc hr hv =>
+    have t1 := ofNat_toNat_lt (x := 240 + a) (by omega)
+    have t2 := ofNat_toNat_lt (x := 128 + b) (by omega)
+    have t3 := ofNat_toNat_lt (x := 128 + c) (by omega)
+    have t4 := ofNat_toNat_lt (x := 128 + r) (by omega)
+    have z1 := ofNat_ne_zero (x := 240 + a) (by omega) (by omega)
+    have z2 := ofNat_ne_zero (x := 128 + b) (by omega) (by omega)
+    have z3 := ofNat_ne_zero (x := 128 + c) (by omega) (by omega)
+    have z4 := ofNat_ne_zero (x := 128 + r) (by omega) (by omega)
+    conv => lhs; rw [List.cons_append, List.cons_append, List.cons_append, List.cons_append, List.nil_append,
+      enumRaw.eq_def]
+    simp only [z1, z2, z3, z4, if_false, t1, t2, t3, t4, is1_false (x := 240 + a) (by omega) (by omega),
+      is2_false (x := 240 + a) (by omega) (by omega), is3_false (x := 240 + a) (by omega) (by omega),
+      code4_eq a b c r ha hb hc hr, Bool.false_eq_true]
+
+theorem raw_std (cs : List Char) (h : NoNul cs) :
+    enumRaw (mem (Std.utf8 cs)) = some (cs.map fun c => (c.toNat, String.utf8EncodeChar c)) := by
+  unfold mem
+  induction cs with
+  | nil => rw [show Std.utf8 [] = [] from rfl, List.nil_append]; unfold enumRaw; simp
+  | cons ch t ih =>
+    have ht : NoNul t := fun c hc => h c (by simp [hc])
+    simp only [Std.utf8, List.flatMap_cons, List.append_assoc] at *
+    rw [raw_enc (enc_char ch (h ch (by simp))), ih ht]
+    simp
+
+theorem enc_unique {v v' : Nat} {bs bs' : List UInt8} (h1 : Enc v bs) (h2 : Enc v' bs') (e : v = v') : bs = bs' := by
+  cases h1 <;> cases h2 <;> first
+    | (exfalso; omega)
+    | (subst e; rfl)
+    | (rename_i a r _ _ _ a' r' _ _ _
+       have : a = a' ∧ r = r' := by omega
+       obtain ⟨x, y⟩ := this; subst x; subst y; rfl)
+    | (rename_i a b r _ _ _ _ a' b' r' _ _ _ _
+       have : a = a' ∧ b = b' ∧ r = r' := by omega
+       obtain ⟨x, y, z⟩ := this; subst x; subst y; subst z; rfl)
+    | (rename_i a b c r _ _ _ _ _ a' b' c' r' _ _ _ _ _
+       have : a = a' ∧ b = b' ∧ c = c' ∧ r = r' := by omega
+       obtain ⟨x, y, z, w⟩ := this; subst x; subst y; subst z; subst w; rfl)
+
+/-- a 1- or 2-byte encoding is the standard UTF-8 of a non-NUL `Char` -/
+theorem enc_is_char {v : Nat} {bs : List UInt8} (h : Enc v bs) (hv : v < 0xD800) (h0 : v ≠ 0) :
+    ∃ ch : Char, ch.toNat ≠ 0 ∧ String.utf8EncodeChar ch = bs := by
+  have ht : (Char.ofNat v).toNat = v := by
+    simp [Char.ofNat, Nat.isValidChar, hv, Char.ofNatAux, Char.toNat]
+  refine ⟨Char.ofNat v, by omega, ?_⟩
+  exact enc_unique (enc_char (Char.ofNat v) (by omega)) h ht
+
+theorem mapCode_char (t : Array UInt8) (cut : Nat) (h1 : allPairs shapeOK 0 t.toList = true)
+    (h2 : allPairs shape2OK 0 t.toList = true) (hsz : cut * 2 ≤ t.size) (c : Char) (h0 : c.toNat ≠ 0) :
+    ∃ ch : Char, ch.toNat ≠ 0 ∧ mapCode t cut c.toNat = String.utf8EncodeChar ch := by
+  unfold mapCode
+  split
+  · rename_i hlt
+    have f1 := table_fact shapeOK t h1 c.toNat (by omega)
+    have f2 := table_fact shape2OK t h2 c.toNat (by omega)
+    unfold tableBytes
+    simp only
+    generalize t.getD (c.toNat * 2) 0 = a at *
+    generalize t.getD (c.toNat * 2 + 1) 0 = b at *
+    unfold shapeOK at f1; unfold shape2OK at f2
+    by_cases hb : b = 0
+    · subst hb
+      simp only [beq_self_eq_true, Bool.or_true, Bool.true_and, if_true, decide_eq_true_eq, Bool.or_eq_true,
+        beq_iff_eq, bne_iff_ne, ne_eq] at f1 f2
+      have ha0 : a ≠ 0 := by
+        rcases f2 with f2 | f2
+        · exact absurd f2 h0
+        · exact f2
+      have hlt := UInt8.lt_iff_toNat_lt.mp f1
+      have n0 : (128 : UInt8).toNat = 128 := rfl
+      rw [n0] at hlt
+      have hne : a.toNat ≠ 0 := fun e => ha0 (by rw [← UInt8.ofNat_toNat (x := a), e]; rfl)
+      obtain ⟨ch, hc0, he⟩ := enc_is_char (Enc.one a.toNat hne hlt) (by omega) hne
+      refine ⟨ch, hc0, ?_⟩
+      rw [he, UInt8.ofNat_toNat]; simp
+    · have hb' : (b == 0) = false := by simpa using hb
+      simp only [hb', Bool.or_false, Bool.false_eq_true, if_false, Bool.and_eq_true, decide_eq_true_eq] at f1 f2
+      obtain ⟨g1, g2, g3, g4⟩ := f2
+      have e1 := UInt8.le_iff_toNat_le.mp g1
+      have e2 := UInt8.lt_iff_toNat_lt.mp g2
+      have e3 := UInt8.le_iff_toNat_le.mp g3
+      have e4 := UInt8.lt_iff_toNat_lt.mp g4
+      have n1 : (0xC2 : UInt8).toNat = 194 := rfl
+      have n2 : (0xE0 : UInt8).toNat = 224 := rfl
+      have n3 : (0x80 : UInt8).toNat = 128 := rfl
+      have n4 : (0xC0 : UInt8).toNat = 192 := rfl
+      rw [n1] at e1; rw [n2] at e2; rw [n3] at e3; rw [n4] at e4
+      have E := Enc.two (a.toNat - 192) (b.toNat - 128) (by omega) (by omega) (by omega)
+      rw [show 192 + (a.toNat - 192) = a.toNat by omega, show 128 + (b.toNat - 128) = b.toNat by omega,
+        UInt8.ofNat_toNat, UInt8.ofNat_toNat] at E
+      obtain ⟨ch, hc0, he⟩ := enc_is_char E (by omega) (by omega)
+      refine ⟨ch, hc0, ?_⟩
+      rw [he]; simp [hb]
+  · exact ⟨c, h0, by rw [reencode_eq _ h0, enc32_char]⟩
+
+theorem caseMap_valid (t : Array UInt8) (cut : Nat) (h1 : allPairs shapeOK 0 t.toList = true)
+    (h2 : allPairs shape2OK 0 t.toList = true) (hsz : cut * 2 ≤ t.size) (cs : List Char) (h : NoNul cs) :
+    ∃ out : List Char, NoNul out ∧ out.length = cs.length ∧ caseMap t cut (Std.utf8 cs) = some (Std.utf8 out) := by
+  unfold caseMap
+  rw [raw_std cs h]
+  simp only [Option.map_some, Option.some.injEq]
+  induction cs with
+  | nil => exact ⟨[], by intro c hc; simp at hc, rfl, rfl⟩
+  | cons ch tl ih =>
+    have ht : NoNul tl := fun c hc => h c (by simp [hc])
+    obtain ⟨out, ho, hl, he⟩ := ih ht
+    obtain ⟨c', hc0, hm⟩ := mapCode_char t cut h1 h2 hsz ch (h ch (by simp))
+    refine ⟨c' :: out, ?_, by simp [hl], ?_⟩
+    · intro c hc
+      rcases List.mem_cons.mp hc with e | e
+      · subst e; exact hc0
+      · exact ho c e
+    · simp only [List.map_cons, List.flatMap_cons, Std.utf8]
+      rw [he]
+      simp only [mapGroup, h ch (by simp), if_false, hm, Std.utf8]
+
+/-- on valid text the case functions return valid text (standard UTF-8 of non-NUL scalar values) with the
+    same number of characters — for every sequence of scalar values -/
+theorem case_valid_text (cs : List Char) (h : NoNul cs) :
+    (∃ up : List Char, NoNul up ∧ up.length = cs.length ∧ toUpperCase (Std.utf8 cs) = some (Std.utf8 up)) ∧
+    (∃ lo : List Char, NoNul lo ∧ lo.length = cs.length ∧ toLowerCase (Std.utf8 cs) = some (Std.utf8 lo)) :=
+  ⟨caseMap_valid _ _ upper_shape upper_shape2 table_reads_in_bounds.1 cs h,
+   caseMap_valid _ _ lower_shape lower_shape2 table_reads_in_bounds.2.1 cs h⟩
+
+example : toUpperCase (Std.utf8 ['a', 'é']) = some (Std.utf8 ['A', 'É']) := by decide +kernel
+
 /-! ## extension round: U+0000, `wlength()`, `equalsNocase` as an equivalence -/
 
 theorem countFrom_std_junk (cs : List Char) (h : NoNul cs) (junk : List UInt8) :
